@@ -142,39 +142,47 @@ def r10_4(prog: Program, rep):
         # loops over cached packs
         for loop in [x for x in ast.walk(f.node) if isinstance(x, ast.For)]:
             it = norm(loop.iter)
+            if isinstance(loop.iter, ast.Name):
+                # a local list built from the pack cache (`todo = [.. for name, pack in self._pack_cache.items() ..]`)
+                it += " ".join(norm(s_.value, 400) for s_ in ast.walk(f.node) if isinstance(s_, ast.Assign) and isinstance(s_.targets[0], ast.Name)
+                               and s_.targets[0].id == loop.iter.id)
             if not any(k in it for k in ("self.packs", "_iter_cached_packs()", "_pack_cache", "_update_pack_cache()")):
                 continue
-            tv = loop.target.id if isinstance(loop.target, ast.Name) else None
-            if tv is None:
+            tvs = [x.id for x in ast.walk(loop.target) if isinstance(x, ast.Name)]
+            if not tvs:
                 continue
-            # dereferences of the loop variable in the body
-            derefs = []
-            for x in ast.walk(loop):
-                if x is loop.iter:
-                    continue
-                if isinstance(x, ast.Attribute) and isinstance(x.value, ast.Name) and x.value.id == tv and isinstance(x.ctx, ast.Load):
-                    derefs.append(x)
-                if isinstance(x, (ast.YieldFrom,)) and isinstance(x.value, ast.Name) and x.value.id == tv:
-                    derefs.append(x)
-                if isinstance(x, ast.Compare) and any(isinstance(o, (ast.In, ast.NotIn)) for o in x.ops) \
-                        and any(isinstance(c, ast.Name) and c.id == tv for c in x.comparators):
-                    derefs.append(x)
-            for dx in derefs:
-                if isinstance(dx, ast.Attribute) and dx.attr in ("_data_path", "_basename", "name"):
-                    continue
-                n += 1
-                protected = False
-                cur = dx
-                while cur in m.parents and cur is not loop:
-                    par = m.parents[cur]
-                    if isinstance(par, ast.Try) and cur in par.body:
-                        for h in par.handlers:
-                            if h.type is not None and "PackFileDisappeared" in norm(h.type):
-                                protected = True
-                    cur = par
-                rep.ob("R10.4", OS_PY, f.qual, f"pack dereference `{norm(dx, 50)}` tolerates PackFileDisappeared", protected,
-                       "this reader dereferences a cached pack outside any handler for PackFileDisappeared while its siblings "
-                       "evict and continue: a concurrent repack makes it fail for objects that exist throughout", dx.lineno)
+            for tv in tvs:
+              # dereferences of the loop variable in the body
+              derefs = []
+              for x in ast.walk(loop):
+                  if x is loop.iter:
+                      continue
+                  if isinstance(x, ast.Attribute) and isinstance(x.value, ast.Name) and x.value.id == tv and isinstance(x.ctx, ast.Load):
+                      derefs.append(x)
+                  if isinstance(x, (ast.YieldFrom,)) and isinstance(x.value, ast.Name) and x.value.id == tv:
+                      derefs.append(x)
+                  if isinstance(x, ast.Call) and isinstance(x.func, ast.Name) and x.func.id in ("list", "iter", "len", "set", "sorted", "tuple") and x.args \
+                          and isinstance(x.args[0], ast.Name) and x.args[0].id == tv:
+                      derefs.append(x)
+                  if isinstance(x, ast.Compare) and any(isinstance(o, (ast.In, ast.NotIn)) for o in x.ops) \
+                          and any(isinstance(c, ast.Name) and c.id == tv for c in x.comparators):
+                      derefs.append(x)
+              for dx in derefs:
+                  if isinstance(dx, ast.Attribute) and dx.attr in ("_data_path", "_basename", "name"):
+                      continue
+                  n += 1
+                  protected = False
+                  cur = dx
+                  while cur in m.parents and cur is not loop:
+                      par = m.parents[cur]
+                      if isinstance(par, ast.Try) and cur in par.body:
+                          for h in par.handlers:
+                              if h.type is not None and "PackFileDisappeared" in norm(h.type):
+                                  protected = True
+                      cur = par
+                  rep.ob("R10.4", OS_PY, f.qual, f"pack dereference `{norm(dx, 50)}` tolerates PackFileDisappeared", protected,
+                         "this reader dereferences a cached pack outside any handler for PackFileDisappeared while its siblings "
+                         "evict and continue: a concurrent repack makes it fail for objects that exist throughout", dx.lineno)
         # lookups routed through _lookup_in_packs are protected by construction
         if any(isinstance(c, ast.Call) and callee_name(c) == "_lookup_in_packs" for c in ast.walk(f.node)):
             n += 1
@@ -452,6 +460,13 @@ def r10_12(prog: Program, rep):
                    "the outer and the inner listing makes the reader fail with FileNotFoundError although every object is still readable", c.lineno)
     if n < 3:
         raise AnalysisError(f"expected >= 3 fan-out directory listings in DiskObjectStore, found {n}")
+    # (d) ids are handed out from a materialised list, never from a generator suspended inside a pack (its index mmap is closed
+    # when a lookup made by the consumer evicts the pack)
+    lazy = [y for l in ast.walk(f.node) if isinstance(l, ast.For) for y in ast.walk(l) if isinstance(y, ast.YieldFrom) and isinstance(y.value, ast.Name)
+            and y.value.id in [x.id for x in ast.walk(l.target) if isinstance(x, ast.Name)]]
+    rep.ob("R10.12", OS_PY, f.qual, "the ids of a pack are read before any of them is handed out (no generator suspended in the pack index)", not lazy,
+           "`yield from pack` keeps a generator suspended in the index mmap: when the consumer looks an object up and a concurrent repack removed this pack, the "
+           "lookup evicts and closes it and the next step fails with 'mmap closed or invalid' (fsck, write_commit_graph)", lazy[0].lineno if lazy else f.node.lineno)
 
 
 def run(prog: Program, rep, tier="quick"):
